@@ -5,6 +5,7 @@ from harness.impl_loc import enc_loc
 from harness.impl_seq import impl_seq_op
 
 WARM_TWINS = {"quick": 0.02, "thorough": 0.05}      # engine: call-history twins (harness/warm.py)
+DECOY_TWINS = {"quick": 0.02, "thorough": 0.05}     # engine: decoy twins (harness/decoy.py)
 ID = "C03"
 LEAN_MODULE = "BioCantor.Props.C03"
 DESIGN_REF = "4/C03"
